@@ -5,7 +5,7 @@
 
 use std::{
     borrow::Cow,
-    collections::{BTreeSet, HashMap, HashSet, VecDeque},
+    collections::{BTreeMap, BTreeSet, HashMap, HashSet, VecDeque},
     sync::Arc,
 };
 
@@ -21,7 +21,7 @@ use ordered_float::OrderedFloat;
 use write_fonts::{OtRound, types::GlyphId16};
 
 use crate::{
-    error::{BadGlyph, Error},
+    error::{BadGlyph, BadGlyphKind, Error},
     ir::{Component, Glyph, GlyphBuilder, GlyphInstance, GlyphOrder, StaticMetadata},
     orchestration::{Context, Flags, IrWork, WorkId},
     propagate_anchors::propagate_all_anchors,
@@ -217,6 +217,52 @@ impl fontdrasil::util::CompositeLike for &Glyph {
     fn component_names(&self) -> impl Iterator<Item = smol_str::SmolStr> {
         Glyph::component_names(self).map(|name| name.clone().into_inner())
     }
+}
+
+/// Error if any glyph references itself as a component, directly or indirectly.
+fn check_for_component_cycles(context: &Context) -> Result<(), BadGlyph> {
+    let glyphs: BTreeMap<GlyphName, Arc<Glyph>> = context
+        .glyphs
+        .all()
+        .into_iter()
+        .map(|(_, glyph)| (glyph.name.clone(), glyph))
+        .collect();
+
+    // iterative depth-first search; a glyph is absent from `state` until first seen,
+    // `false` while some path from the root passes through it, `true` once fully explored
+    let mut state: HashMap<&GlyphName, bool> = HashMap::with_capacity(glyphs.len());
+    for root in glyphs.keys() {
+        if state.contains_key(root) {
+            continue;
+        }
+        state.insert(root, false);
+        let mut stack = vec![(root, glyphs[root].component_names())];
+        while let Some((name, components)) = stack.last_mut() {
+            let Some(component) = components.next() else {
+                state.insert(*name, true);
+                stack.pop();
+                continue;
+            };
+            // references to missing glyphs were pruned, but let's not rely on it
+            let Some((component, glyph)) = glyphs.get_key_value(component) else {
+                continue;
+            };
+            match state.get(component) {
+                Some(true) => (),
+                Some(false) => {
+                    return Err(BadGlyph::new(
+                        component.clone(),
+                        BadGlyphKind::ComponentCycle,
+                    ));
+                }
+                None => {
+                    state.insert(component, false);
+                    stack.push((component, glyph.component_names()));
+                }
+            }
+        }
+    }
+    Ok(())
 }
 
 /// Drop component references pointing at glyphs that don't exist.
@@ -828,6 +874,11 @@ impl Work<Context, WorkId, Error> for GlyphOrderWork {
         // missing component can't cause its glyph (or its siblings) to be
         // decomposed. See https://github.com/googlefonts/fontc/issues/1858
         prune_missing_components(context);
+
+        // Everything from here on walks component references and assumes they
+        // end somewhere; a glyph that (indirectly) contains itself would make
+        // us loop forever.
+        check_for_component_cycles(context)?;
 
         // Propagate anchors from components to composites (if enabled)
         // This must happen BEFORE flattening non-export components, because after
